@@ -442,6 +442,27 @@ pub fn run_untyped(op: &str, args: &[&str]) -> Option<String> {
                 bma == bmb
             ))
         }
+        // sockv6keys: a BTreeSet / BTreeMap of two SocketAddrV6 that differ only in scope_id (Ord and Eq tell them
+        // apart, the format does not carry the scope): serialized, then decoded again
+        ("sockv6keys", []) => {
+            use std::collections::{BTreeMap, BTreeSet};
+            use std::net::{Ipv6Addr, SocketAddrV6};
+            let a = SocketAddrV6::new(Ipv6Addr::LOCALHOST, 80, 0, 0);
+            let b = SocketAddrV6::new(Ipv6Addr::LOCALHOST, 80, 0, 7);
+            let s: BTreeSet<SocketAddrV6> = [a, b].into_iter().collect();
+            let bytes = borsh::to_vec(&s).ok()?;
+            let ds = match borsh::from_slice::<BTreeSet<SocketAddrV6>>(&bytes) {
+                Ok(x) => format!("ok {}", x.len()),
+                Err(e) => crate::errs::err_s(&e),
+            };
+            let m: BTreeMap<SocketAddrV6, u8> = [(a, 1), (b, 2)].into_iter().collect();
+            let mb = borsh::to_vec(&m).ok()?;
+            let dm = match borsh::from_slice::<BTreeMap<SocketAddrV6, u8>>(&mb) {
+                Ok(x) => format!("ok {}", x.len()),
+                Err(e) => crate::errs::err_s(&e),
+            };
+            Some(format!("set n={} de={};map n={} de={}", s.len(), ds, m.len(), dm))
+        }
         _ => None,
     }
 }
